@@ -1051,6 +1051,9 @@ func init() {
 			}()
 			m.CallClosure(a[0].(*Closure), nil)
 		}()
+		if !crashed {
+			m.K.CrashAt = 0
+		}
 		return m.S.Bool(crashed)
 	})
 	hreg("verifKernelReboot", func(m *Machine, fn *ssa.Function, a []Value) Value { m.K.Reboot(); return nil })
